@@ -11,6 +11,7 @@ import hashlib
 import json
 import multiprocessing as mp
 import os
+import re
 import shutil
 import subprocess
 import sys
@@ -43,8 +44,12 @@ class HarnessGap(HarnessError):
 # scratch space
 
 
-def scratch_base() -> Path:
-    base = os.environ.get("VERIF_SCRATCH")
+def scratch_base(stable: bool = False) -> Path:
+    """Where scratch directories live.  mc.run points VERIF_SCRATCH at a
+    directory of its own for the whole run (all forked workers and fresh
+    subprocesses inherit it) and removes it at the end; *stable* asks for the
+    run-independent base (case_dir: a path that is a function of the case only)."""
+    base = os.environ.get("VERIF_SCRATCH_STABLE" if stable else "VERIF_SCRATCH") or os.environ.get("VERIF_SCRATCH_STABLE")
     if base:
         p = Path(base)
     elif os.path.isdir("/dev/shm") and os.access("/dev/shm", os.W_OK):
@@ -108,7 +113,7 @@ def case_dir(key: Any, name: str = "case"):
     case (not of the process): code under test that iterates sets of absolute
     paths then behaves identically in the explorer, in the confirmation re-run
     and in a replay.  An exclusive lock serialises concurrent users."""
-    d = scratch_base() / f"{name}-{h64(key):016x}"
+    d = scratch_base(stable=True) / f"{name}-{h64(key):016x}"
     lock = open(str(d) + ".lock", "w")
     fcntl.flock(lock, fcntl.LOCK_EX)
     try:
@@ -138,6 +143,49 @@ def force_rmtree(p: Path) -> None:
         p.unlink()
     else:
         shutil.rmtree(p, onerror=onerr)
+
+
+def begin_run() -> Path:
+    """Called once by the top-level process of a run: a scratch root for this
+    run only, exported to every child; stale roots of dead processes are
+    removed on the way (bounded work per run)."""
+    import shutil
+
+    if os.environ.get("VERIF_SCRATCH") and not os.environ.get("VERIF_SCRATCH_STABLE"):
+        base = Path(os.environ["VERIF_SCRATCH"])   # a base chosen by the caller
+        base.mkdir(parents=True, exist_ok=True)
+    else:
+        base = scratch_base(stable=True)
+    os.environ["VERIF_SCRATCH_STABLE"] = str(base)
+    n = 0
+    with contextlib.suppress(OSError):
+        for ent in os.scandir(base):
+            m = re.match(r"^(?:p|run)(\d+)-", ent.name)
+            if not m or not ent.is_dir(follow_symlinks=False):
+                continue
+            try:
+                os.kill(int(m.group(1)), 0)
+                continue  # that process is alive
+            except ProcessLookupError:
+                pass
+            except OSError:
+                continue
+            shutil.rmtree(ent.path, ignore_errors=True)
+            n += 1
+            if n >= 5000:
+                break
+    root = Path(tempfile.mkdtemp(prefix=f"run{os.getpid()}-", dir=base))
+    os.environ["VERIF_SCRATCH"] = str(root)
+    return root
+
+
+def end_run(root: Path) -> None:
+    import shutil
+
+    cleanup_scratch()
+    shutil.rmtree(root, ignore_errors=True)
+    if os.environ.get("VERIF_SCRATCH") == str(root):
+        os.environ.pop("VERIF_SCRATCH", None)
 
 
 def cleanup_scratch() -> None:
